@@ -131,7 +131,8 @@ LEVELS = {
                 "as the gate sees them, related by percent-decoding) and all iteration orders of the paths map: a request that the router "
                 "dispatches to a state-changing operation is not allowed by the gate when write operations are off; C18_tables_wellformed "
                 "discharges the hypothesis for the tables regenerated from the source on this run, C18_write_ops_pinned and "
-                "C18_setup_pinned pin which operations are state-changing and that the gate is installed before the handlers. "
+                "C18_setup_pinned pin which operations are state-changing and that the gate is installed before the handlers; "
+                "C18_gate_stateless pins what the gate's code can reach besides the request (no memo, counter or table of its own). "
                 "C18_deterministic, C18_readonly_reachable. The model of chi/kin-openapi matching is tied to the real router by httptest runs.",
         "design_ref": "DESIGN.md §4 C18",
         "note": "Trusted: Lean kernel; factx; correspondence harness; my model of chi, kin-openapi Find, regexp and URL decoding.",
@@ -164,6 +165,8 @@ LEVELS = {
     "C13": {
         "text": "Proof: C13_atomic_save — for all old/new encodings and every crash point (any prefix of create-tmp, write, fsync, rename; "
                 "any partial write; loss of un-synced data) the final path shows exactly the old or exactly the complete new file; "
+                "C13_saves_after_crashes — by induction over any list of save attempts, each cut short anywhere and each finding "
+                "anything at the temp path, the state file is the complete encoding of the last save that reached its rename; "
                 "C13_persist_order_pinned ties the step order to PersistToDisk's source on every run; C13_replay / C13_saved_height / "
                 "C13_commit_pure give replay determinism from the saved height. Partial: gob round-trip fidelity is a library/runtime "
                 "fact and is checked (save→load→compare→continue both, at commit points of every history), not proved; real fsync/rename "
